@@ -54,7 +54,38 @@ def queue_events(lines):
     return out
 
 def validate_mech(spec, cfg, exs, outdir, tag, dev_const=None):
-    """exs: list of (x, events). Returns (accepted, divergences[list of (x, event index)])"""
+    """exs: list of (x, events). Returns (accepted, divergences[list of (x, event index)]).
+    Large sets are validated in batches of at most ~400 000 events (one TLC run each); a batch that does not finish in
+    its time is counted as not validated (the figure is a measurement, never a verdict), it is not a tool error."""
+    batches = []
+    cur = []
+    n = 0
+    for x, evs in exs:
+        if cur and n + len(evs) > 400000:
+            batches.append(cur)
+            cur = []
+            n = 0
+        cur.append((x, evs))
+        n += len(evs)
+    if cur:
+        batches.append(cur)
+    if len(batches) > 1:
+        accepted = 0
+        div = []
+        for bi, b in enumerate(batches):
+            try:
+                a, d = _validate_mech_batch(spec, cfg, b, outdir, "%s_b%d" % (tag, bi))
+            except vlib.ToolError as e:
+                if "timed out" not in str(e):
+                    raise
+                d = [{"execution": b[0][0], "event_index": -1, "event": None, "note": "batch of %d executions not validated in time" % len(b)}]
+                a = 0
+            accepted += a
+            div += d
+        return accepted, div
+    return _validate_mech_batch(spec, cfg, exs, outdir, tag)
+
+def _validate_mech_batch(spec, cfg, exs, outdir, tag):
     os.makedirs(outdir, exist_ok=True)
     accepted = 0
     div = []
@@ -72,7 +103,7 @@ def validate_mech(spec, cfg, exs, outdir, tag, dev_const=None):
                 n += len(evs)
                 bounds.append(n)
         env = {"TRACE": p}
-        rc, out, wall = vlib.tlc("mech_%s_%d" % (tag, rounds), cfg, spec, os.path.join(vlib.SPECS, "trace"), workers=1, timeout=420,
+        rc, out, wall = vlib.tlc("mech_%s_%d" % (tag, rounds), cfg, spec, os.path.join(vlib.SPECS, "trace"), workers=1, timeout=900,
                                  env=env, java_opts="-Xmx4g -Xss1g")
         m = re.search(r'<<"MECH", (\d+), (\d+)>>', out)
         if not m:
